@@ -307,6 +307,7 @@ def generate(target, registry):
               consts=target.get('consts'))
     ex.finder = find_function
     ex.const_finder = module_constant
+    ex.call_override = dict(target.get('calls', {}))
     env, mgrs = {}, {}
     ABDD.clear()
     del HANDLES[:]
@@ -348,6 +349,8 @@ def generate(target, registry):
     entry_mgrs = {k: s.copy() for k, s in mgrs.items()}
     entry_env = {k: (v.copy() if isinstance(v, (DictV, SetV)) else v) for k, v in env.items()}
     p0 = Path(mgrs, env, [])
+    if getattr(c, 'entry_ref_empty', False):
+        p0.ref_empty, p0.ref_written = True, []
     ex.entry_mgrs = entry_mgrs
     zargs = ex.z_args(c, {n: env[n] for n, _ in c.params if n in env}, p0)
     if callable(c.mgr):
@@ -389,6 +392,11 @@ def generate(target, registry):
                 if rs.must:
                     ex.oblige(p, f'raises:{exc}.body-reached-only-when-not@{p.line}', Not(rs.when(ctx0)), p.line)
             continue
+        if p.status == 'return' and getattr(p, 'ref_empty', False) and S1 is not None:
+            # the `_ref` table was emptied on this path: its keys (the ones written since) must again be the keys of `_succ`
+            u_ = z3.Int('u!rk')
+            ex.oblige(p, 'ref-keys-equal-succ-keys', z3.ForAll([u_], S1.dom[u_] == z3.Or(*[u_ == k for k in p.ref_written]) if p.ref_written
+                                                               else z3.Not(S1.dom[u_]), patterns=[S1.dom[u_]]))
         if p.status == 'return' and p.exc is None or p.status == 'return':
             if getattr(c, 'ghost', None) and S1 is not None:
                 # ghost statement executed at normal return: assigns ghost fields only (the contract says which)
